@@ -119,14 +119,18 @@ def run_big(scn, n, order_kind, seed):
         decls = big_instance(scn, n, order_kind, seed)
         targets = {t["name"]: Target(name=t["name"], inputs=t["inputs"], outputs=t["outputs"], options={}, working_dir=d) for t in decls}
         fs = CachedFilesystem()
+        from ..common import time_limit
+
         try:
-            graph = Graph.from_targets(targets, fs)
+            with time_limit(120):
+                graph = Graph.from_targets(targets, fs)
             out.append({"op": "from_targets", "order": order_kind, "outcome": "ok"})
         except BaseException as exc:  # noqa: BLE001
             out.append({"op": "from_targets", "order": order_kind, "outcome": kind_of(exc)})
             return out
         for op in ("status", "dryrun", "touch", "status_after_touch"):
             try:
+              with time_limit(20):
                 if op in ("status", "status_after_touch"):
                     sm = get_status_map(graph, CachedFilesystem(), NoopSpecHashes(), NoBackend())
                     ok = len(sm) == n
@@ -141,6 +145,8 @@ def run_big(scn, n, order_kind, seed):
                     out.append({"op": op, "order": order_kind, "outcome": "ok"})
             except BaseException as exc:  # noqa: BLE001
                 out.append({"op": op, "order": order_kind, "outcome": "other:" + type(exc).__name__})
+                if type(exc).__name__ in ("GwfTimeout", "MemoryError"):
+                    break  # the graph makes gwf loop: the other operations would only repeat that
     finally:
         shutil.rmtree(d, ignore_errors=True)
     return out
@@ -151,12 +157,28 @@ CLI_CMDS = [["status"], ["run"], ["run", "--dry-run"], ["clean", "--all", "-f"],
 
 def drive(item):
     rid, scn, variant, with_cli, big = item
+    from ..common import time_limit
+
     obs = {"built": False, "kind": "", "cli": [], "big": []}
+    g = None
     try:
-        build(scn, variant)
+        with time_limit(20):
+            g = build(scn, variant)
         obs["built"] = True
     except BaseException as exc:  # noqa: BLE001
         obs["kind"] = kind_of(exc)
+    if g is not None:
+        # the commands built on an accepted graph must terminate (a cyclic graph that slipped through
+        # makes the scheduler loop forever)
+        try:
+            from gwf.core import NoopSpecHashes
+            from gwf.scheduling import get_status_map
+
+            with time_limit(1):
+                get_status_map(g, defs.DictFS({"/p/" + f: (None if m < 0 else 1000.0) for f, m in scn["fs"].items()}), NoopSpecHashes(), NoBackend())
+        except BaseException as exc:  # noqa: BLE001
+            if type(exc).__name__ in ("GwfTimeout", "RecursionError", "MemoryError"):
+                obs["big"].append({"op": "status", "order": "small", "outcome": "other:" + type(exc).__name__})
     if with_cli:
         sb = cli_defs.sandbox()
         s2 = dict(scn, hash=False, hrec={t: "same" for t in scn["T"]}, b={t: "U" for t in scn["T"]}, sel=[])
@@ -174,7 +196,7 @@ def drive(item):
         for cmd in CLI_CMDS:
             before = sb.digest()
             sb.new_calls()
-            r = sb.gwf(cmd)
+            r = sb.gwf(cmd, limit=15)
             calls = sb.new_calls()
             obs["cli"].append(
                 {
@@ -185,8 +207,8 @@ def drive(item):
                     "mutating": bool(cli_defs.mutating(calls)),
                 }
             )
-            if obs["built"]:
-                break  # well-formed: only that the first command works
+            if obs["built"] or r.exit_code == -98:
+                break  # well-formed: only that the first command works; hung: no point in repeating
     for n in big:
         for order_kind in ("forward", "reverse", "shuffled"):
             obs["big"] += run_big(scn, n, order_kind, variant)
